@@ -27,7 +27,7 @@ def _case(draw, tier):
     g = draw(gen.int_train_lists(2, 2, related=draw(st.sampled_from([True, True, False])),
                                  **gen.sizes(tier)))
     c = gen.to_times(g)
-    c["mrts"] = draw(gen.mrts_for(g))
+    c["mrts"] = draw(gen.mrts_for(g, allow_auto=True))
     m1 = draw(gen.maxtau_for(g, positive_only=True, bite=True))
     m2 = draw(st.one_of(gen.maxtau_for(g, positive_only=True), st.just(m1)))
     c["mt1"], c["mt2"] = min(m1, m2), max(m1, m2)
@@ -58,7 +58,7 @@ PHASES = [
 
 def _unbounded_pairs(case):
     (a, b), T0, T1 = ps.fr_trains(case)
-    pairs, _ = O.coincidences(a, b, T0, T1, Fr(case["mrts"] or 0), None)
+    pairs, _ = O.coincidences(a, b, T0, T1, ps.mrts_exact(case), None)
     return a, b, pairs
 
 
